@@ -266,12 +266,14 @@ class Ctx:
         elif now - st_['first_fail'] > st_['budget'] and dj not in st_['failing']:
             return False          # shrink budget used up: freeze the current minimal history
         st_['failing'][dj] = True
+        st_['last'] = (v, case)
         return True
 
     def stateful(self, machine_factory, max_examples, steps, shrink_s=None):
         """machine_factory() returns a RuleBasedStateMachine subclass whose instances raise Violation
         (with .case = the replayable op list) and call ctx.account at teardown."""
         import hypothesis
+        import hypothesis.errors
         from hypothesis import HealthCheck, Phase, settings
         from hypothesis.stateful import run_state_machine_as_test
         for rnd in range(MAX_ROUNDS):
@@ -287,6 +289,14 @@ class Ctx:
                 return
             except Violation as v:
                 self.violation(v, v.case)
+            except hypothesis.errors.Flaky:
+                # a failure that depends on what the PROCESS did before (state kept in the library across histories, random
+                # nonces) does not reproduce when Hypothesis replays the history; it was nevertheless observed on the real code
+                last = self._sm_state.get('last')
+                if last is None:
+                    raise
+                vv, case = last
+                self.violation(Violation(vv.key, vv.message + ' [depends on earlier histories in the same process: not reproduced on replay]'), case)
         self.notes.append('%s: stopped after %d rounds of distinct findings' % (self.task, MAX_ROUNDS))
 
     def result(self):
